@@ -40,3 +40,14 @@ Print Assumptions C11_store_linearizable.
 Theorem C11_no_panic : forall cap es s t, lrun rule_fixed (linit cap) es = Some s -> thr s t <> PPanicked.
 Proof. exact no_panic. Qed.
 Print Assumptions C11_no_panic.
+
+(* Non-vacuity: two connections, a SET on one racing a GET on the other (the GET's lookup falls between
+   the SET's append and its publication): the schedule runs, and the commit order puts the GET first. *)
+Example C11_example :
+  let es := [EInvoke 0 (OpPut 1 10 30); ELock 0; EBegin 0; EGrow 0 30; EFinish 0;
+             EInvoke 1 (OpGet 1); ECheckout 1; ELookup 1;
+             EPublish 0; EUnlock 0; EReturn 0; ERemap 1; ECheckin 1; EReturn 1] in
+  exists s, lrun rule_fixed (linit 2) es = Some s /\ gmap s 1 = Some 10 /\
+    project (linit 2) es = [Lin.IInv _ _ 0 (OpPut 1 10 30); Lin.IInv _ _ 1 (OpGet 1); Lin.ICommit _ _ 1; Lin.ICommit _ _ 0;
+                            Lin.IRet _ _ 0 RUnit; Lin.IRet _ _ 1 (RVal None)].
+Proof. eexists. split; [vm_compute; reflexivity|]. split; vm_compute; reflexivity. Qed.
